@@ -337,8 +337,12 @@ dns_rslvr_cache_entry_data_add(dns_rslvr_cache_entry_p cache_entry, void *data,
 	}
 
 	hbucket_entry_lock(&cache_entry->entry);
-	if (0 == data_count)
+	if (0 == data_count) {
+		/* No new data (NXDOMAIN, error): stored data stay, its type too
+		 * (alias text read as address list: out of block). */
+		flags |= (DNS_R_CD_F_CNAME & cache_entry->flags);
 		goto data_upd_done;
+	}
 	/* Cname <-> IP conversion. */
 	if ((DNS_R_CD_F_CNAME & cache_entry->flags) != (flags & DNS_R_CD_F_CNAME) &&
 	    NULL != cache_entry->pdata) {
